@@ -26,6 +26,32 @@ SYSCALL_SOURCES = {319, 279}
 INT_TYPES = ("i32", "std::os::fd::RawFd", "libc::c_int")
 CONTAINER_CALLS = ("std::cell::Cell::new",)
 
+# ---- resource domain: the same typestate machinery decides descriptors (default) and heap/mapping pointers
+_FD_DOMAIN = dict(FOREIGN_SOURCES=FOREIGN_SOURCES, FOREIGN_OUT_SOURCES=FOREIGN_OUT_SOURCES, FOREIGN_SINKS=FOREIGN_SINKS,
+                  INT_TYPES=INT_TYPES, FIELD_TYPES=("i32", "std::cell::Cell<i32>"), KIND="fd")
+_MEM_DOMAIN = dict(FOREIGN_SOURCES={"libc::malloc", "libc::calloc", "libc::realloc", "libc::mmap"}, FOREIGN_OUT_SOURCES={},
+                   FOREIGN_SINKS={"libc::free", "libc::munmap"},
+                   INT_TYPES=("*mut libc::c_void", "*mut u8", "*mut platform::unix::cmsghdr", "*const u8", "*mut i8"),
+                   FIELD_TYPES=("*mut u8", "*mut platform::unix::cmsghdr", "*mut libc::c_void"), KIND="mem")
+
+
+class domain:
+    """context manager switching the resource domain of this module"""
+    def __init__(self, which):
+        self.which = _MEM_DOMAIN if which == "mem" else _FD_DOMAIN
+
+    def __enter__(self):
+        g = globals()
+        self.saved = {k: g[k] for k in ("FOREIGN_SOURCES", "FOREIGN_OUT_SOURCES", "FOREIGN_SINKS", "INT_TYPES", "FIELD_TYPES", "KIND")}
+        g.update(self.which)
+
+    def __exit__(self, *a):
+        globals().update(self.saved)
+
+
+FIELD_TYPES = ("i32", "std::cell::Cell<i32>")
+KIND = "fd"
+
 
 def is_unix_fn(f):
     return f.path.startswith(UNIX + "::") or ("<" + UNIX + "::") in f.path or f.path.startswith("<" + UNIX)
@@ -46,7 +72,7 @@ def fd_field_candidates(F):
             continue
         for v in a["variants"]:
             for i, fl in enumerate(v["fields"]):
-                if fl["t"] in ("i32", "std::cell::Cell<i32>"):
+                if fl["t"] in FIELD_TYPES:
                     out.append((path, i, fl["n"]))
     return out
 
@@ -70,6 +96,8 @@ def sentinel_moved_fields(F):
     """fields read through mem::replace/mem::take/Cell::replace with a negative constant:
     {(adt, fieldname)} -- a stated belief that the field owns something that can be moved out"""
     out = set()
+    if KIND != "fd":
+        return out
     for f in unix_fns(F):
         tr = Tracer(f)
         for b, t in f.calls_to("std::mem::replace", "std::cell::Cell::replace"):
@@ -128,7 +156,7 @@ class FdEngine:
         if not hit:
             return None
         if callee_is(t, *FOREIGN_SINKS):
-            return "libc::close"
+            return strip_generics(callee_name(t))
         name = strip_generics(callee_name(t))
         s = self.sum.get(name)
         if s:
@@ -235,6 +263,13 @@ class FdEngine:
         def edge(b, s, labs, st, env):
             aliases, status, first = st
             for lab in labs:
+                if lab["kind"] == "pred" and lab["pred"] == "is_null" and lab["truth"] and KIND == "mem":
+                    la = op_local(lab["arg"])
+                    if la is not None and la in aliases:
+                        return None
+                if lab["kind"] == "cmp" and KIND == "mem":
+                    # `p == MAP_FAILED` / `p != MAP_FAILED`: the failed edge carries no mapping
+                    continue
                 if lab["kind"] == "cmp":
                     la, lb = op_local(lab["a"]), op_const(lab["b"])
                     if la is not None and lb is not None and (la in aliases or la in status_locals):
@@ -310,6 +345,8 @@ def moving_reads(F, own_direct):
     """FD-MOVE classification of reads of owning fields outside Drop.
     returns list of dicts {fn, block, kind: 'moving'|'borrowing', field, how}"""
     out = []
+    if KIND != "fd":
+        return out
     for f in unix_fns(F):
         if f.impl_trait == "std::ops::Drop":
             continue
@@ -362,7 +399,9 @@ def returns_owned(F, own_direct, own_containers, summ):
     for _ in range(4):
         changed = False
         for f in unix_fns(F):
-            if f.local_ty(0) not in INT_TYPES:
+            if KIND == "fd" and f.local_ty(0) not in INT_TYPES:
+                continue
+            if KIND != "fd" and "*mut" not in f.local_ty(0):
                 continue
             name = strip_generics(f.path)
             owned = False
@@ -391,6 +430,9 @@ def source_sites(F, f, ret_owned, mv):
             yield b, t, "ret", name
         elif name in FOREIGN_OUT_SOURCES:
             yield b, t, "out", name
+        elif KIND != "fd":
+            if name in ret_owned:
+                yield b, t, "ret", "%s (returns an owned resource)" % name
         elif name.startswith("sc::syscall") or name.startswith("sc::platform"):
             c = op_const(t["args"][0]) if t["args"] else None
             if c in SYSCALL_SOURCES:
@@ -409,8 +451,8 @@ def source_sites(F, f, ret_owned, mv):
 
 # --------------------------------------------------------------------------- rules
 
-def rule_fd_path(ctx, cfg, F, model):
-    R = ctx.rule("FD-PATH", "every raw descriptor created or received in a function of platform::unix is, on every "
+def rule_fd_path(ctx, cfg, F, model, rule_name="FD-PATH", rule_text=None):
+    R = ctx.rule(rule_name, rule_text or "every raw descriptor created or received in a function of platform::unix is, on every "
                  "normal path to a return, released exactly once: closed, moved into an owning type, handed to a "
                  "function that takes ownership, inserted into the set's table, or returned; '< 0' edges carry no obligation")
     own_direct, own_containers, summ, ret_owned, mv = model
@@ -584,8 +626,8 @@ def _exit_desc(f, path):
     return "after-%s:return-%s" % (tail, kinds[-1] if kinds else "value")
 
 
-def rule_fd_drop(ctx, cfg, F, model):
-    R = ctx.rule("FD-DROP", "every type with an owning descriptor field has a Drop impl that, on every normal path, "
+def rule_fd_drop(ctx, cfg, F, model, rule_name="FD-DROP", rule_text=None):
+    R = ctx.rule(rule_name, rule_text or "every type with an owning descriptor field has a Drop impl that, on every normal path, "
                  "closes that field exactly once or leaves through a test of the field against the sentinel")
     own_direct, own_containers, summ, ret_owned, mv = model
     for (adt, name), info in sorted(own_direct.items()):
@@ -607,6 +649,10 @@ def rule_fd_drop(ctx, cfg, F, model):
                 continue
             for s in d.succ(b):
                 for lab in edge_label(d, b, s):
+                    if lab["kind"] == "pred" and lab["pred"] == "is_null" and lab["truth"]:
+                        rs = tr.roots_of_operand(lab["arg"])
+                        if any(r.kind == "param" and r.id == 1 and r.field_names()[:1] == (name,) for r in rs):
+                            guard_targets.add(s)
                     if lab["kind"] == "cmp" and op_const(lab["b"]) is not None:
                         rs = tr.roots_of_operand(lab["a"])
                         if any(r.kind == "param" and r.id == 1 and r.field_names()[:1] == (name,) for r in rs):
